@@ -8,10 +8,10 @@ git -C /repo worktree add -f --detach "$WT" HEAD -q
 ( cd "$WT" && git apply "$PATCH" )
 cd /verif
 for c in "$@"; do
-  out=$(PYTHONPATH="$WT/src" PYTHONHASHSEED=0 PESTVERIF_MAX_BUCKETS=${MAXB:-3} timeout 1800 /venv/bin/python -m pestverif check $c --tier ${TIER:-quick} 2>&1 || true)
+  out=$(PYTHONPATH="$WT/src" PESTVERIF_EVIDENCE_DIR=/tmp/pestverif_scratch_evidence PYTHONHASHSEED=0 PESTVERIF_MAX_BUCKETS=${MAXB:-3} timeout 1800 /venv/bin/python -m pestverif check $c --tier ${TIER:-quick} 2>&1 || true)
   n=$(echo "$out" | grep -c "^VIOLATION" || true)
   echo "== $c: $n violation line(s); $(echo "$out" | grep "^$c " | tail -1)"
   echo "$out" | grep -A1 "^VIOLATION" | grep "bucket=" | cut -c1-260 | head -${SHOW:-3}
 done
 git -C /repo worktree remove --force "$WT"
-git -C /verif checkout -- evidence 2>/dev/null || true
+rm -rf /tmp/pestverif_scratch_evidence
